@@ -181,7 +181,7 @@ def e2e_runs(ctx, idxs, tag=""):
                 ctx.broken.append(("correspondence: the sx binary does not build from the current tree", out[-1500:]))
                 return rows
     ns = "vc15n%d%s" % (os.getpid(), tag)
-    cap_exe = os.path.join(verif.ROOT, "harness", "bin", "c15")
+    cap_exe = os.path.join(verif.HBIN, "c15")
     arp = os.path.join(ctx.work, "arp.cache")
     with open(arp, "w") as f:
         f.write('{"ip":"10.77.0.2","mac":"%s"}\n' % GW)
@@ -426,7 +426,7 @@ def run(ctx):
             ctx.count("%s:%s" % (o["kind"], o["class"]), (o["kind"], o["id"], json.dumps(o.get("ops") or o.get("starts") or o.get("sent"))),
                       nontrivial=bool(o.get("ops") or o.get("scans") or o.get("sent")),
                       sample={k: (v[:6] if isinstance(v, list) else v) for k, v in o.items() if k not in ("kind",)})
-    if os.path.exists(os.path.join(verif.ROOT, "harness", "bin", "c15")):
+    if os.path.exists(os.path.join(verif.HBIN, "c15")):
         erows = e2e_runs(ctx, [(ctx.seed + d) % N_ARP_SPECS for d in (0, 3)] + [IDX_CHUNKS]) if quick else deep_stage(ctx)
         srows = [o for o in erows if o["kind"] == "slow"]
         erows = [o for o in erows if o["kind"] == "e2e"]
@@ -469,7 +469,7 @@ def run(ctx):
                 ctx.broken.append(("correspondence: wrapper case wrap,%d: %s" % (o["id"], CODES[2]),
                                    json.dumps({"ops": o["ops"], "log": o["log"]})[:300]))
             ctx.cov["traces_validated_against_impl"] += len(l) + len(w)
-    if ctx.broken and not ctx.findings and os.path.exists(os.path.join(verif.ROOT, "harness", "bin", "c15")) \
+    if ctx.broken and not ctx.findings and os.path.exists(os.path.join(verif.HBIN, "c15")) \
             and not any("harness c15 does not build" in w for w, _ in ctx.broken):
         # a proof or a tie broke: look harder for a concrete input on which the real code breaks the property
         sd = ctx.seed + 101
